@@ -36,8 +36,8 @@ def main():
         tb = traceback.format_exc()
         print(tb)
         import json
-        os.makedirs(os.path.join(core.VERIF, 'replays'), exist_ok=True)
-        rp = os.path.join(core.VERIF, 'replays', f'{a.pid}_{a.tier}_{seed}.json')
+        os.makedirs(core.REPLAYS, exist_ok=True)
+        rp = os.path.join(core.REPLAYS, f'{a.pid}_{a.tier}_{seed}.json')
         json.dump({'property': a.pid, 'kind': 'broken-tie', 'tier': a.tier, 'seed': seed,
                    'no_longer_checks': ['correspondence harness harness/props/%s.py raised %s: %s' % (a.pid.lower(), type(e).__name__, str(e)[:300])],
                    'traceback': tb[-3000:]}, open(rp, 'w'), indent=1)
